@@ -160,8 +160,8 @@ theorem trace_rank_independent_partial (rp : Repairs) (api : Api) (cfg : Cfg) (w
       by_cases hm : minOf (world.map fillDispErr) ≠ 0
       · simp [hm]
       · simp only [hm, if_false]
-        have e1 := Decidable.not_iff_not.mp (fillSafeErr_ne_zero_iff (world.headD a) world a ha)
-        have e2 := Decidable.not_iff_not.mp (fillSafeErr_ne_zero_iff (world.headD a) world b hb)
+        have e1 := Decidable.not_iff_not.mp (fillSafeErr_ne_zero_iff rp.safeMinCode (world.headD a) world a ha)
+        have e2 := Decidable.not_iff_not.mp (fillSafeErr_ne_zero_iff rp.safeMinCode (world.headD a) world b hb)
         rw [← hroot]
         simp only [ne_eq, e1, e2]
     · have hs' : cfg.safe = false := by simpa using hs
@@ -305,51 +305,98 @@ theorem f2_deadlocks :
 /-! ### 3. errors stay local -/
 /-- safe mode off: the code a rank gets depends on its own input only (for create/open: and on root's
     mode, which every rank adopts) -/
-theorem errors_local (api : Api) (cfg : Cfg) (hs : cfg.safe = false) (w1 w2 : List RankInput) (me : RankInput)
+theorem errors_local (rp : Repairs) (api : Api) (cfg : Cfg) (hs : cfg.safe = false) (w1 w2 : List RankInput) (me : RankInput)
     (hroot : w1.head? = w2.head?) :
-    localRet api cfg w1 me = localRet api cfg w2 me := by
+    localRet rp api cfg w1 me = localRet rp api cfg w2 me := by
   cases api <;> simp [localRet, getputRet, fillRet, enddefRet, renameRet, metaRet, modeRet, hs, hroot]
 
 /-- …and for everything but create/open not even on root's -/
-theorem errors_local_data (api : Api) (hapi : api ≠ .create ∧ ∀ n, api ≠ .openFile n) (cfg : Cfg)
+theorem errors_local_data (rp : Repairs) (api : Api) (hapi : api ≠ .create ∧ ∀ n, api ≠ .openFile n) (cfg : Cfg)
     (hs : cfg.safe = false) (w1 w2 : List RankInput) (me : RankInput) :
-    localRet api cfg w1 me = localRet api cfg w2 me := by
+    localRet rp api cfg w1 me = localRet rp api cfg w2 me := by
   cases api <;> simp [localRet, getputRet, fillRet, enddefRet, renameRet, metaRet, hs]
   · exact absurd rfl hapi.1
   · exact absurd rfl (hapi.2 _)
 
 /-- a rank whose own arguments are fine succeeds whatever the others pass -/
-theorem valid_rank_succeeds (f : Form) (d : Dir) (vk : VarKind) (cfg : Cfg) (hs : cfg.safe = false)
+theorem valid_rank_succeeds (rp : Repairs) (f : Form) (d : Dir) (vk : VarKind) (cfg : Cfg) (hs : cfg.safe = false)
     (world : List RankInput) (me : RankInput) (hme : me.cls = .valid ∨ me.cls = .zeroLen) :
-    localRet (.getput f d vk) cfg world me = 0 := by
+    localRet rp (.getput f d vk) cfg world me = 0 := by
   rcases hme with h | h <;> simp [localRet, getputRet, hs, dispErr, drvErrOf, h]
 
-example : localRet (.getput .var .put .record) {} witnessF2 { cls := .argErr .eedge } = -57 := by decide
-example : localRet (.getput .var .put .record) {} witnessF2 { cls := .valid, recEnd := 4 } = 0 := by decide
+example : localRet Repairs.none (.getput .var .put .record) {} witnessF2 { cls := .argErr .eedge } = -57 := by decide
+example : localRet Repairs.none (.getput .var .put .record) {} witnessF2 { cls := .valid, recEnd := 4 } = 0 := by decide
 
 /-! ### 4. safe mode: disagreement is reported with one code -/
-def safe_same_code_Statement : Prop :=
-  ∀ (api : Api) (cfg : Cfg) (world : List RankInput) (a b : RankInput), cfg.safe = true →
-    (api = .create ∨ (∃ n, api = .openFile n) ∨ (∃ L w, api = .enddef L w) ∨ api = .renameVar ∨ api = .fillVarRec) →
-    a ∈ world → b ∈ world → localRet api cfg world a = localRet api cfg world b
+/-- the collective metadata calls (and ncmpi_fill_var_rec) -/
+def isMetadataCall : Api → Prop
+  | .create => True
+  | .openFile _ => True
+  | .enddef _ _ => True
+  | .renameVar => True
+  | .fillVarRec => True
+  | .metaCall _ => True
+  | _ => False
+
+def safe_same_code_Statement (rp : Repairs) : Prop :=
+  ∀ (api : Api) (cfg : Cfg) (world : List RankInput) (a b : RankInput), cfg.safe = true → isMetadataCall api →
+    a ∈ world → b ∈ world → localRet rp api cfg world a = localRet rp api cfg world b
 
 /-- three ranks in ncmpi_fill_var_rec: root fills record 3, one rank names a variable whose fill mode is off
     (NC_ENOTFILL), one rank passes another record number: the last Allreduce hands NC_EMULTIDEFINE_FNC_ARGS to
     the ranks without an error of their own, the NC_ENOTFILL rank keeps its own code -/
 def witnessSafeFill : List RankInput :=
   [{ fillCls := .ok, recno := 3 }, { fillCls := .notFill, varid := 1, recno := 3 }, { fillCls := .ok, recno := 5 }]
+/-- three ranks in ncmpi_def_var_fill: rank 1 disagrees with root on no_fill (NC_EMULTIDEFINE_FNC_ARGS), rank 2 on the
+    fill value (NC_EMULTIDEFINE_VAR_FILL_VALUE): rank 1 keeps -269, the others get the minimum -272 -/
+def witnessSafeDefVarFill : List RankInput :=
+  [{ margs := { ident := 1, len := 1, vals := 5 } }, { margs := { ident := 1, xtype := 1, len := 1, vals := 5 } },
+   { margs := { ident := 1, len := 1, vals := 6 } }]
 
-theorem safe_same_code_counterexample : ¬ safe_same_code_Statement := by
+theorem safe_same_code_counterexample : ¬ safe_same_code_Statement Repairs.none := by
   intro h
   have := h .fillVarRec { safe := true } witnessSafeFill { fillCls := .ok, recno := 3 }
-    { fillCls := .notFill, varid := 1, recno := 3 } rfl (by simp) (by decide) (by decide)
+    { fillCls := .notFill, varid := 1, recno := 3 } rfl trivial (by decide) (by decide)
+  revert this; decide
+theorem safe_same_code_counterexample_def_var_fill : ¬ safe_same_code_Statement Repairs.none := by
+  intro h
+  have := h (.metaCall .defVarFill) { safe := true, indef := true } witnessSafeDefVarFill
+    { margs := { ident := 1, len := 1, vals := 5 } } { margs := { ident := 1, xtype := 1, len := 1, vals := 5 } }
+    rfl trivial (by decide) (by decide)
+  revert this; decide
+/-- the repair is needed even when every other repair is present -/
+theorem safe_same_code_needs_safeMinCode : ¬ safe_same_code_Statement { Repairs.all with safeMinCode := false } := by
+  intro h
+  have := h .fillVarRec { safe := true } witnessSafeFill { fillCls := .ok, recno := 3 }
+    { fillCls := .notFill, varid := 1, recno := 3 } rfl trivial (by decide) (by decide)
   revert this; decide
 
-/-- holds for the calls whose safe-mode block returns the reduced code on every rank -/
-theorem safe_same_code_partial (api : Api) (cfg : Cfg) (world : List RankInput) (a b : RankInput)
+/-- with the repair (every safe-mode block returns the Allreduce(MIN) result on every rank) the last sentence of the
+    property holds as written: whatever the ranks disagree on, every rank returns the same code from every collective
+    metadata call -/
+theorem safe_same_code_repaired (rp : Repairs) (hrp : rp.safeMinCode = true) : safe_same_code_Statement rp := by
+  intro api cfg world a b hs hapi ha _hb
+  have hroot : world.headD a = world.headD b := headD_of_mem world a b a ha
+  have hroot' : world.head?.getD a = world.head?.getD b := by simpa using hroot
+  cases api <;> simp only [isMetadataCall] at hapi
+  case fillVarRec =>
+    simp only [localRet, fillRet, hs, if_true, fillSafeErr, hrp]
+    rw [hroot]
+    simp
+  case enddef L w => simp [localRet, enddefRet, hs, hroot']
+  case create => simp [localRet, modeRet, hs, hroot']
+  case openFile n => simp [localRet, modeRet, hs, hroot']
+  case renameVar => simp [localRet, renameRet, hs, hroot']
+  case metaCall k =>
+    simp only [localRet, metaRet, hs, if_true, hrp]
+    rw [hroot]
+    simp
+
+/-- on today's tree: holds for the calls whose safe-mode block returns the reduced code on every rank -/
+theorem safe_same_code_partial (rp : Repairs) (api : Api) (cfg : Cfg) (world : List RankInput) (a b : RankInput)
     (_hs : cfg.safe = true)
     (hapi : api = .create ∨ (∃ n, api = .openFile n) ∨ (∃ L w, api = .enddef L w) ∨ api = .renameVar)
-    (ha : a ∈ world) (_hb : b ∈ world) : localRet api cfg world a = localRet api cfg world b := by
+    (ha : a ∈ world) (_hb : b ∈ world) : localRet rp api cfg world a = localRet rp api cfg world b := by
   have hroot : world.head?.getD a = world.head?.getD b := by
     have := headD_of_mem world a b a ha
     simpa using this
@@ -357,9 +404,9 @@ theorem safe_same_code_partial (api : Api) (cfg : Cfg) (world : List RankInput) 
     simp [localRet, modeRet, enddefRet, renameRet, _hs, hroot]
 
 /-- …and for ncmpi_fill_var_rec when the disagreement is the only error (no rank has an error of its own) -/
-theorem safe_same_code_fill (cfg : Cfg) (world : List RankInput) (a b : RankInput) (hs : cfg.safe = true)
+theorem safe_same_code_fill (rp : Repairs) (cfg : Cfg) (world : List RankInput) (a b : RankInput) (hs : cfg.safe = true)
     (hown : ∀ x ∈ world, fillOwnErr x = 0) (ha : a ∈ world) (hb : b ∈ world) :
-    localRet .fillVarRec cfg world a = localRet .fillVarRec cfg world b := by
+    localRet rp .fillVarRec cfg world a = localRet rp .fillVarRec cfg world b := by
   have hroot : world.headD a = world.headD b := headD_of_mem world a b a ha
   simp only [localRet, fillRet, hs, if_true]
   rw [← hroot]
@@ -377,20 +424,26 @@ theorem safe_same_code_fill (cfg : Cfg) (world : List RankInput) (a b : RankInpu
       intro y hy
       obtain ⟨x, hx, rfl⟩ := List.mem_map.mp hy
       rcases hcmp x hx with h | h <;> rw [h] <;> decide
-    have val : ∀ x ∈ world, fillSafeErr (world.headD a) world x = minOf (world.map (fillCmpErr (world.headD a))) := by
+    have val : ∀ x ∈ world, fillSafeErr rp.safeMinCode (world.headD a) world x = minOf (world.map (fillCmpErr (world.headD a))) := by
       intro x hx
       unfold fillSafeErr
-      rcases hcmp x hx with h | h
-      · rw [if_neg (by rw [h]; exact fun hh => hh rfl)]
-      · have hle := minOf_map_mem (fillCmpErr (world.headD a)) world x hx
-        rw [h] at hle
-        rw [if_pos (by rw [h]; decide), h]
-        omega
+      split
+      · rename_i hc
+        rcases hcmp x hx with h | h
+        · exact absurd h hc.2
+        · have hle := minOf_map_mem (fillCmpErr (world.headD a)) world x hx
+          rw [h] at hle
+          rw [h]; omega
+      · rfl
     rw [val a ha, val b hb]
 
 example : ∀ x ∈ ([{ fillCls := .ok, recno := 3 }, { fillCls := .ok, recno := 5 }] : List RankInput), fillOwnErr x = 0 := by decide
-example : localRet .fillVarRec { safe := true } [{ fillCls := .ok, recno := 3 }, { fillCls := .ok, recno := 5 }]
+example : localRet Repairs.none .fillVarRec { safe := true } [{ fillCls := .ok, recno := 3 }, { fillCls := .ok, recno := 5 }]
     { fillCls := .ok, recno := 3 } = -269 := by decide
+/-- the two witnesses under the repair: one code on every rank -/
+example : (witnessSafeFill.map (localRet Repairs.all .fillVarRec { safe := true } witnessSafeFill)) = [-269, -269, -269] := by decide
+example : (witnessSafeDefVarFill.map (localRet Repairs.all (.metaCall .defVarFill) { safe := true, indef := true } witnessSafeDefVarFill))
+    = [-272, -272, -272] := by decide
 
 /-! ### 5. the safe-mode argument comparison of the metadata calls -/
 /-- which broadcasts a rank executes in the comparison block is decided by ROOT's arguments: a non-root rank that
@@ -399,7 +452,7 @@ example : localRet .fillVarRec { safe := true } [{ fillCls := .ok, recno := 3 },
 example : localTrace Repairs.none (.metaCall .putAtt) { safe := true, indef := true }
     [{ margs := { name := 1, len := 4, vals := 7 } }, { margs := { name := 1, len := 0 } }] { margs := { name := 1, len := 0 } }
     = [.allreduce, .bcast, .bcast, .bcast, .bcast, .bcast, .bcast, .allreduce] := by decide
-example : localRet (.metaCall .putAtt) { safe := true, indef := true }
+example : localRet Repairs.none (.metaCall .putAtt) { safe := true, indef := true }
     [{ margs := { name := 1, len := 4, vals := 7 } }, { margs := { name := 1, len := 0 } }] { margs := { name := 1, len := 4, vals := 7 } }
     = -267 := by decide
 /-- … and no values broadcast at all when it is root that passes nelems = 0 -/
@@ -409,11 +462,11 @@ example : localTrace Repairs.none (.metaCall .putAtt) { safe := true, indef := t
 
 /-- safe mode on: every rank returns the same code from the metadata calls whose comparison is done in the dispatcher
     (put_att, def_dim, def_var, rename_dim, rename_att, del_att, copy_att), whatever the ranks disagree on -/
-theorem safe_same_code_meta (k : MetaKind) (hk : ∀ r m, metaDriverOwn k r m = 0) (cfg : Cfg) (hs : cfg.safe = true)
+theorem safe_same_code_meta (rp : Repairs) (k : MetaKind) (hk : ∀ r m, metaDriverOwn k r m = 0) (cfg : Cfg) (hs : cfg.safe = true)
     (world : List RankInput) (a b : RankInput) (ha : a ∈ world) (_hb : b ∈ world) :
-    localRet (.metaCall k) cfg world a = localRet (.metaCall k) cfg world b := by
+    localRet rp (.metaCall k) cfg world a = localRet rp (.metaCall k) cfg world b := by
   have hroot : world.headD a = world.headD b := headD_of_mem world a b a ha
-  simp only [localRet, metaRet, hs, if_true, hk, ne_eq, not_true_eq_false, if_false]
+  simp only [localRet, metaRet, hs, if_true, hk, ne_eq, not_true_eq_false, and_false, if_false]
   rw [hroot]
 example : ∀ r m, metaDriverOwn .putAtt r m = 0 := fun _ _ => rfl
 example : ∀ r m, metaDriverOwn .defVar r m = 0 := fun _ _ => rfl
@@ -421,7 +474,7 @@ example : ∀ r m, metaDriverOwn .renameAtt r m = 0 := fun _ _ => rfl
 
 /-- the code is the NC_EMULTIDEFINE_* of the first argument (in comparison order) on which some rank differs from root,
     minimised over the ranks: with a single disagreeing argument it is that argument's code on every rank -/
-example : localRet (.metaCall .putAtt) { safe := true }
+example : localRet Repairs.none (.metaCall .putAtt) { safe := true }
     [{ margs := { name := 1, len := 4, vals := 7 } }, { margs := { name := 1, len := 4, vals := 8 } }, { margs := { name := 1, len := 4, vals := 7 } }]
     { margs := { name := 1, len := 4, vals := 7 } } = -268 := by decide
 
@@ -430,6 +483,7 @@ def obligations : List String := [
   "trace_needs_metaErrJoins", "trace_rank_independent_partial", "trace_rank_independent_repaired",
   "matched_traces_no_deadlock", "completes_iff_all_equal", "mismatch_deadlocks", "no_deadlock_partial", "f2_deadlocks",
   "errors_local", "errors_local_data", "valid_rank_succeeds",
-  "safe_same_code_counterexample", "safe_same_code_partial", "safe_same_code_fill", "safe_same_code_meta"
+  "safe_same_code_counterexample", "safe_same_code_counterexample_def_var_fill", "safe_same_code_needs_safeMinCode",
+  "safe_same_code_repaired", "safe_same_code_partial", "safe_same_code_fill", "safe_same_code_meta"
 ]
 end PnVerif.Props.C08
